@@ -96,7 +96,7 @@ Proof.
   intros v v' (Ht & Hsucc & Hp2) [pre [Hd Hs]] H. unfold Session.dbg_step in H. rewrite Ht in H.
   destruct (i_pc v) as [|b r] eqn:Epc.
   - (* end of the script: only the done flag / error slot change *)
-    rewrite Hp2, Hsucc in H.
+    rewrite Hp2, Hsucc in H. cbn [orb] in H. rewrite Bool.andb_false_r in H.
     destruct (negb (cs_empty (e_cond (i_e v)))); [discriminate|]. inversion H; subst v'. clear H.
     split; [repeat split; assumption|]. exists pre. cbn. split; [exact Hd|exact Hs].
   - destruct (step_script low_s c (i_e v) (b :: r) false) as [[e1 pc1] st] eqn:Es.
@@ -136,7 +136,8 @@ Proof.
     (* the script never changes *)
     unfold Session.dbg_step in Hs. destruct Hsg as (Ht & Hsucc & Hp2). rewrite Ht in Hs.
     destruct (i_pc v) as [|b r] eqn:Epc.
-    + rewrite Hp2, Hsucc in Hs. destruct (negb (cs_empty (e_cond (i_e v)))); [discriminate|]. inversion Hs; subst v'. cbn. exact Hsc.
+    + rewrite Hp2, Hsucc in Hs. cbn [orb] in Hs. rewrite Bool.andb_false_r in Hs.
+      destruct (negb (cs_empty (e_cond (i_e v)))); [discriminate|]. inversion Hs; subst v'. cbn. exact Hsc.
     + destruct (step_script low_s c (i_e v) (b :: r) false) as [[e1 pc1] st] eqn:Es. destruct st; try discriminate. inversion Hs; subst v'.
       pose proof (step_script_framed low_s c (i_e v) (b :: r) false) as Hf. cbv zeta in Hf. rewrite Es in Hf. cbn [fst snd] in Hf.
       destruct Hf as [Hfr _]. unfold frs in Hfr. cbn [fst] in Hfr. cbn. rewrite Hfr. exact Hsc.
@@ -244,11 +245,13 @@ Proof.
   destruct (i_pc v) as [|b r] eqn:Epc.
   - rewrite Hp in H. destruct Hph as [(Hs & He & pre & Hd & Hq)|(Hs & He & pre & Hd & Hq)].
     + (* switch to the scriptPubKey *)
-      rewrite Hs in H. destruct succ as [|s0 sr]; [contradiction|]. rewrite Hnp in H. inversion H; subst v'. clear H.
+      rewrite Hs in H. destruct succ as [|s0 sr]; [contradiction|]. cbn [orb] in H. rewrite Bool.andb_true_r in H.
+      destruct (negb (cs_empty (e_cond (i_e v)))); [discriminate|]. rewrite Hnp in H. inversion H; subst v'. clear H.
       split; [reflexivity|]. split; [reflexivity|]. right. cbn [i_succ i_e e_script i_pc i_seq].
       split; [reflexivity|]. split; [reflexivity|]. exists []. split; [reflexivity|].
       rewrite decode_ops_nil, app_nil_r in Hd. rewrite Hq, Hd. cbn [length]. lia.
-    + rewrite Hs in H. destruct (negb (cs_empty (e_cond (i_e v)))); [discriminate|]. inversion H; subst v'. clear H.
+    + rewrite Hs in H. cbn [orb] in H. rewrite Bool.andb_false_r in H.
+      destruct (negb (cs_empty (e_cond (i_e v)))); [discriminate|]. inversion H; subst v'. clear H.
       split; [exact Ht|]. split; [exact Hp|]. right. cbn. split; [exact Hs|]. split; [exact He|]. exists pre. split; assumption.
   - destruct (step_script low_s c (i_e v) (b :: r) false) as [[e1 pc1] st] eqn:Es.
     destruct st; try discriminate. inversion H; subst v'. clear H.
